@@ -255,6 +255,13 @@ def evalCheck (c0 : CaseSt) (ov : Override) (toks : List String) (rawOv : Nat â†
       | some m => showVerdict (if w.front == 'R' then acceptableOperand m else validOperand m)
       | none => "skip unresolved"
     | none => "skip unresolved"
+  | ["operandx", w, k] =>
+    match k.toNat? with
+    | some k =>
+      match operandMP c (w.front) k with
+      | some m => showVerdict (validOperandForOutcome m)
+      | none => "skip unresolved"
+    | none => "skip unresolved"
   | ["geom", k, tol, trivialOk] =>
     match k.toNat?, parseRat? tol with
     | some k, some tol =>
